@@ -7,9 +7,12 @@ backend omitted (default) and backend="auto" — through ctx.call, each result i
 the answer the problem determines uniquely); the four meanings must be equal.  Iterations/evaluations are never
 looked at.  The extension is the one built by the runner from VERIF_REPO/rust (vf/shadow.py); before the first case
 the module makes sure that this extension is importable from the shadow package, that default/auto resolve to it,
-that every one of the nine functions has a registered adapter and (per call, through a counting wrapper around the
-extension's entry points) that backend="rust"/default/"auto" really reached the Rust kernel.  If not, the run is a
-harness error (exit 2) — python is never silently compared with python.
+that every one of the nine functions has a registered adapter and (through a counting wrapper around the extension's
+entry points) that the rust/default/auto route of each function does reach the Rust kernel: an adapter may answer an
+individual input by itself (counted, compared like any other answer), but 30 route calls of a function with not one
+kernel call are a harness error (exit 2), as is a missing adapter - python is never silently compared with python.
+Every case also draws a call style (all positional / all by keyword under the public function's parameter names /
+mixed); an exception raised by some back-ends only is the bucket <fn>:exception-from-some-backends-only.
 """
 from __future__ import annotations
 
@@ -46,7 +49,9 @@ META = {
         "{1,2,3,5,10,30,100,1000}. Each of backend=python/rust/default/auto is validated against the reference and the "
         "four meanings (status; distances / visited list / total weight / component partition and count / "
         "feasibility; objective where it carries meaning) must be equal; paths, trees and orders are validated, not "
-        "compared verbatim; round-3 families: hairline cycles (total -k*2^-40, 0 or +k*2^-40 on ordinary weights) for bellman_ford / "
+        "compared verbatim; every case draws a call style (positional / keyword by the documented names / mixed); round-4 families: heavy-dup "
+        "(1-4 distinct pairs each listed 2-4 times on 2-6 nodes) for every function, dag-dup for the topological sort, a caller-mirrored "
+        "edge layout for undirected floyd_warshall; round-3 families: hairline cycles (total -k*2^-40, 0 or +k*2^-40 on ordinary weights) for bellman_ford / "
         "directed floyd_warshall, large sparse graphs (33..80 nodes, thorough ..140: long paths / deep trees + noise) for every function, "
         "braids (2-3 routes of different length merging before the target) and bundles (1..6 parallel edges per tree edge in decreasing "
         "weight order) for the single-source functions; every call runs under a deterministic step budget; PageRank ||p-r||_1 <= 2*n*tol*d/(1-d)+1e-12. A case is non-trivial when the edge list has a "
